@@ -25,6 +25,9 @@
 //!   iw.new - <scale> <df>                          -> ok | E:<Variant>
 //!   iw.ln_f - <scale> <df> <x>                     -> f64
 //!   iw.mean / iw.mode - <scale> <df>               -> N | S <M>
+//!   iw.sample_vs_draws - <scale> <df> <seed> <n>   -> T | F <i> <sample(n)[i]> <i-th successive draw>   (IMPLEMENTATION ONLY: the overriding batch sampler
+//!                                                   `InvWishart::sample` against n successive `draw`s from the same seeded generator state; exact)
+//!   iw.sample_mean - <scale> <df> <seed> <n>       -> mean of sample(n)   (IMPLEMENTATION ONLY, statistical: ≈ scale/(df−p−1))
 //!   iw.draw_mean - <scale> <df> <seed> <n>         -> <sample mean of n draws>   (IMPLEMENTATION ONLY, statistical)
 //!   niw.new - <mu> <k> <df> <scale>                -> ok | E:<Variant>
 //!   niw.ln_f - <mu> <k> <df> <scale> <mvg mu> <mvg cov>  -> f64 | E:… (NIW) | E1:… (MvGaussian)
@@ -303,6 +306,56 @@ pub fn dispatch(op: &str, _kind: &str, a: &mut Args) -> Option<String> {
                         None => "N".to_string(),
                         Some(m) => format!("S {}", wr_mat(&m)),
                     }
+                }
+            }
+        }
+        "iw.sample_vs_draws" => {
+            // `InvWishart::sample` OVERRIDES the trait default (wishart.rs:198-216; MvGaussian and NormalInvWishart do not override it):
+            // from the same generator state it must return exactly what n successive `draw`s return
+            let sc = rd_mat(a);
+            let df = a.n() as usize;
+            let seed = a.n();
+            let n = a.n() as usize;
+            match InvWishart::new(sc, df) {
+                Err(e) => err_tok(&e),
+                Ok(iw) => {
+                    let mut r1 = Xoshiro256Plus::seed_from_u64(seed);
+                    let mut r2 = Xoshiro256Plus::seed_from_u64(seed);
+                    let batch: Vec<DMatrix<f64>> = iw.sample(n, &mut r1);
+                    let mut out = "T".to_string();
+                    if batch.len() != n {
+                        out = format!("F len {}", batch.len());
+                    } else {
+                        for (i, s) in batch.iter().enumerate() {
+                            let d: DMatrix<f64> = iw.draw(&mut r2);
+                            if &d != s {
+                                out = format!("F {} {} {}", i, wr_mat(s), wr_mat(&d));
+                                break;
+                            }
+                        }
+                    }
+                    out
+                }
+            }
+        }
+        "iw.sample_mean" => {
+            // mean of `sample(n)` (the batch sampler), to be compared with inv_scale / (df − p − 1)
+            let sc = rd_mat(a);
+            let df = a.n() as usize;
+            let seed = a.n();
+            let n = a.n() as usize;
+            match InvWishart::new(sc.clone(), df) {
+                Err(e) => err_tok(&e),
+                Ok(iw) => {
+                    let mut rng = Xoshiro256Plus::seed_from_u64(seed);
+                    let p = sc.nrows();
+                    let xs: Vec<DMatrix<f64>> = iw.sample(n, &mut rng);
+                    let mut m = DMatrix::<f64>::zeros(p, p);
+                    for x in xs.iter() {
+                        m += x;
+                    }
+                    m /= n as f64;
+                    wr_mat(&m)
                 }
             }
         }
